@@ -708,6 +708,7 @@ func stateRules(c *Ctx) {
 		memoByAddress(c, g, short1)
 		narrowCounter(c, g, short1)
 		gluedMemoKey(c, g, short1)
+		writeUnderReadLock(c, g, short1)
 		indexSummed(c, g, short1)
 	}
 	// parsers that link features to a local Sequence (shared by C01, C14, C15)
@@ -1084,8 +1085,19 @@ func goCapture(c *Ctx, g *ssa.Function, short1 string) int {
 		}
 		// several goroutines updating one map: the literal (or a module function it hands the map to)
 		// updates a map it captured, the go statement sits in a loop, and nobody takes a lock
+		// started more than once: the go statement sits in a loop, or the same literal is started by several go statements
+		manyStarts := inLoop(gi.Block())
+		if !manyStarts && mc.Referrers() != nil {
+			nGo := 0
+			for _, r := range *mc.Referrers() {
+				if _, isGo := r.(*ssa.Go); isGo {
+					nGo++
+				}
+			}
+			manyStarts = nGo >= 2
+		}
 		for bi := range mc.Bindings {
-			if bi >= len(fn.FreeVars) || !inLoop(gi.Block()) || guardedBy(fn) != "" {
+			if bi >= len(fn.FreeVars) || !manyStarts || guardedBy(fn) != "" {
 				continue
 			}
 			fv := fn.FreeVars[bi]
@@ -1156,10 +1168,10 @@ func goCapture(c *Ctx, g *ssa.Function, short1 string) int {
 			}
 			// several goroutines assigning one variable: the literal stores into the captured variable itself
 			// (x = append(x, ...), n += ...), the go statement sits in a loop, and the literal takes no lock
-			if fv.Referrers() != nil && inLoop(gi.Block()) && guardedBy(fn) == "" {
+			if fv.Referrers() != nil && manyStarts && guardedBy(fn) == "" {
 				for _, r := range *fv.Referrers() {
 					if st, isSt := r.(*ssa.Store); isSt && st.Addr == ssa.Value(fv) {
-						c.bad("STATE", "go-shared-write:"+short1+"."+al.Comment, st.Pos(), fmt.Sprintf("%s starts, in a loop, goroutines on a function literal that assigns the variable %s of the starting function with no lock: two of them can read the same old value and one assignment is lost (an element appended by one goroutine disappears)", short1, al.Comment))
+						c.bad("STATE", "go-shared-write:"+short1+"."+al.Comment, st.Pos(), fmt.Sprintf("%s starts several goroutines (a loop, or several go statements) on a function literal that assigns the variable %s of the starting function with no lock: two of them can read the same old value and one assignment is lost (an element appended by one goroutine disappears)", short1, al.Comment))
 						break
 					}
 				}
@@ -4914,6 +4926,60 @@ func gluedMemoKey(c *Ctx, g *ssa.Function, short1 string) {
 			return
 		}
 		c.bad("STATE", "glued-memo-key:"+short1+"->"+gl.Name(), i.Pos(), fmt.Sprintf("%s remembers a value in package-level %s under two argument texts glued together with nothing between them (%s): different pairs of texts give the same key (\"ab\"+\"c\" = \"a\"+\"bc\"), so what was remembered for one pair is handed out for the other", short1, gl.Name(), short(tb.T(key).String())))
+	})
+}
+
+// writeUnderReadLock: a package-level map is written while the function holds only the READ side of a
+// sync.RWMutex (RLock taken on the way, no Lock): read locks are shared, so two callers write the map at once.
+func writeUnderReadLock(c *Ctx, g *ssa.Function, short1 string) {
+	var rlocks, locks []*ssa.Call
+	eachInstr(g, func(i ssa.Instruction) {
+		if cl, ok := i.(*ssa.Call); ok {
+			switch calleeName(cl) {
+			case "(*sync.RWMutex).RLock":
+				rlocks = append(rlocks, cl)
+			case "(*sync.RWMutex).Lock", "(*sync.Mutex).Lock":
+				locks = append(locks, cl)
+			}
+		}
+	})
+	if len(rlocks) == 0 {
+		return
+	}
+	eachInstr(g, func(i ssa.Instruction) {
+		mu, ok := i.(*ssa.MapUpdate)
+		if !ok {
+			return
+		}
+		gl := globalRoot(mu.Map)
+		if gl == nil {
+			return
+		}
+		held := false
+		for _, r := range rlocks {
+			if domInstr(r, mu) {
+				held = true
+			}
+		}
+		for _, l := range locks {
+			if domInstr(l, mu) {
+				held = false
+			}
+		}
+		if !held {
+			return
+		}
+		// the read lock given back before the write (RUnlock on the way, not deferred)?
+		released := false
+		eachInstr(g, func(j ssa.Instruction) {
+			if cl, ok := j.(*ssa.Call); ok && calleeName(cl) == "(*sync.RWMutex).RUnlock" && domInstr(cl, mu) {
+				released = true
+			}
+		})
+		if released {
+			return
+		}
+		c.bad("STATE", "write-under-read-lock:"+short1+"->"+gl.Name(), mu.Pos(), fmt.Sprintf("%s writes package-level %s while it holds only the read side of a sync.RWMutex (RLock, no Lock): read locks are shared, so two callers that arrive together write the map at the same time -- a data race that the run-time answers with \"concurrent map writes\"", short1, gl.Name()))
 	})
 }
 
